@@ -404,8 +404,9 @@ class ModuleVistor(NodeVisitor):
                 ancestors: List[model.Documentable] = [current]
                 while ancestors[-1].parent is not None:
                     ancestors.append(ancestors[-1].parent)
-                if ob in ancestors:
-                    # A module cannot be moved into itself or into one of its own modules.
+                if ob in ancestors or ob.parent is None:
+                    # A module cannot be moved into itself or into one of its own modules,
+                    # and a root module or package stays a root.
                     return False
                 if origin_module.all is None or origin_name not in origin_module.all:
                     self.system.msg(
